@@ -650,7 +650,8 @@ def r8_lexer_token_facts(ctx: Ctx) -> None:
         u = unparse(st)
         if u == "lex_expression(s)":
             seq.append("expr")
-        elif isinstance(st, ast.If) and unparse(st.test) == "s.accept(',')" and [unparse(b) for b in st.body] == ["lex_opcode_index(s)"]:
+        elif isinstance(st, ast.If) and unparse(st.test) == "s.accept(',')" and st.body and unparse(st.body[0]) == "lex_opcode_index(s)" \
+                and all(unparse(b).startswith("s.ignore") for b in st.body[1:]):
             seq.append("index")
         elif isinstance(st, ast.If) and any(t and t[1] in (")", "]") for t in [eq_const_test(a[0]) for a in if_chain(st)[0]]):
             seq.append("close")
